@@ -489,7 +489,9 @@ def drive(rep, tier, seed, wd):
     for i in range(600 if q else 4000):
         printable = rng.random() < 0.7
         v = rand_value(rng, tier, rng.choice([0, 1, 2, 3]), printable)
-        add(["vv := " + L.value_src(v), "vv", "json_encode(vv)", "json_decode(json_encode(vv))", "eval(json_encode(vv))", "repr(vv)", "eval(repr(vv))"],
+        # a third of the values carry their integers in big representation
+        big = (lambda n: True) if i % 3 == 2 else None
+        add(["vv := " + L.value_src(v, big), "vv", "json_encode(vv)", "json_decode(json_encode(vv))", "eval(json_encode(vv))", "repr(vv)", "eval(repr(vv))"],
             {"ev": "json", "v": v, "printable": printable})
     res = run_cases(cases)
     events, infos = [], []
